@@ -337,7 +337,7 @@ fn hostile_package(h: &Hostile) -> Vec<u8> {
 fn run(ctx: &Ctx, rep: &Report) {
     let base = ctx.work_dir("jails");
     // positive
-    let npos: u64 = if ctx.is_dbg() { ctx.tier.pick(40, 400) } else { ctx.tier.pick(150, 4000) };
+    let npos: u64 = if ctx.is_dbg() { ctx.tier.pick(40, 400) } else { ctx.tier.pick(150, 6000) };
     par_for(ctx.threads, npos, 1, |i| {
         let mut rng = Rng::for_case(ctx.seed, "C12-pos", i);
         let cfg = positive_cfg(&mut rng);
@@ -381,7 +381,7 @@ fn run(ctx: &Ctx, rep: &Report) {
         let _ = std::fs::remove_dir_all(&jroot);
     });
     // hostile
-    let nrand = if ctx.is_dbg() { ctx.tier.pick(100, 2000) } else { ctx.tier.pick(400, 20_000) };
+    let nrand = if ctx.is_dbg() { ctx.tier.pick(100, 2000) } else { ctx.tier.pick(400, 30_000) };
     // the case list depends on the jail path, so each case is generated for its own jail
     let probe_root = base.join("probe");
     let mut rng = Rng::for_case(ctx.seed, "C12-hostile", 0);
